@@ -176,7 +176,7 @@ func lemmaL3(e, t, t1 uint64, i int, s uint64) bool {
 //@   counted
 //@   requires wfWheel(v) && ghost_hasExp() && ghost_hasExpLinks() && index >= 0 && index < 5
 //@   modifies $SWEEPFX
-//@   callback expireNode: requires [C07:expiration-justified] nowNanos == int64(v.time) && uint64(ghost_expiresAt(n)) < v.time
+//@   callback expireNode: requires [C07:expiration-justified] cb_nowNanos == int64(v.time) && uint64(ghost_expiresAt(cb_n)) < v.time
 //@   callback expireNode: modifies $SWEEPFX
 //@   loop 1: invariant [C13:sweep-range] start == prevTicks&(buckets[index]-1) && end == start+minU64(delta+1, buckets[index]) && mask == buckets[index]-1 && i >= start && i <= end && wfWheel(v) && index >= 0 && index < 5 && same(timerWheel, v.wheel[index])
 //@   loop 2: invariant [inner] wfWheel(v) && index >= 0 && index < 5
@@ -185,7 +185,7 @@ func lemmaL3(e, t, t1 uint64, i int, s uint64) bool {
 //@   requires wfWheel(v) && ghost_hasExp() && ghost_hasExpLinks() && nowNanos >= 0
 //@   modifies $SWEEPFX, v.time, ghost_calls_deleteExpiredFromBucket()
 //@   loop 1: unroll 5
-//@   callback expireNode: requires [C07:expiration-justified] uint64(ghost_expiresAt(n)) < uint64(cb_nowNanos)
+//@   callback expireNode: requires [C07:expiration-justified] uint64(ghost_expiresAt(cb_n)) < uint64(cb_nowNanos)
 //@   callback expireNode: modifies $SWEEPFX
 //@   ensures [C13:time-advanced] v.time == uint64(nowNanos)
 //@   ensures [C13:sweeps-levels-until-first-idle] ghost_calls_deleteExpiredFromBucket() == pre(ghost_calls_deleteExpiredFromBucket()) + levelsToSweep(pre(v.time), uint64(nowNanos))
